@@ -204,6 +204,59 @@ def walk(p):
         yield from walk(p[2])
 
 
+def sub_patterns(p):
+    """get_subtrace address patterns of a core program: lists of ("hop", addr) / ("vec",) / ("mask",) / ("switch",)
+    in traversal order, each ending with a hop"""
+    k = p[0]
+    if k == "static":
+        out = []
+        for (a, g, es) in p[1]:
+            out.append([("hop", list(a))])
+            out += [[("hop", list(a))] + q for q in sub_patterns(g)]
+        return out
+    if k in ("vmap", "scan"):
+        return [[("vec",)] + q for q in sub_patterns(p[2])]
+    if k == "switch":
+        return [[("switch",)] + q for g in p[1] for q in sub_patterns(g)]
+    if k == "mask":
+        return [[("mask",)] + q for q in sub_patterns(p[1])]
+    if k == "dimap":
+        return sub_patterns(p[2])
+    return []
+
+
+def pattern_instances(pat, univ, limit=2):
+    """concrete index tuples (one index per vec of the pattern) for which the universe has an address under the pattern"""
+    out = []
+    for path in univ:
+        i, idx, ok = 0, [], True
+        for el in pat:
+            if el[0] == "hop":
+                n = len(el[1])
+                if [c[0] for c in path[i:i + n]] != ["s"] * n or [c[1] for c in path[i:i + n]] != list(el[1]):
+                    ok = False; break
+                i += n
+            elif el[0] == "vec":
+                if i >= len(path) or path[i][0] != "i":
+                    ok = False; break
+                idx.append(path[i][1]); i += 1
+        if ok and idx not in out:
+            out.append(idx)
+            if len(out) >= limit:
+                break
+    return out
+
+
+def pattern_prefix(pat, idx):
+    pre, k = [], 0
+    for el in pat:
+        if el[0] == "hop":
+            pre += [("s", x) for x in el[1]]
+        elif el[0] == "vec":
+            pre.append(("i", idx[k])); k += 1
+    return pre
+
+
 def shape_paths(p):
     """address paths of a core program with index levels abstracted: tuples of ("s", id) / ("i",)"""
     k = p[0]
@@ -628,11 +681,25 @@ def run_case(case):
         return out
     if kinds_of(core) <= set(EDIT_OK_UPDATE) and not has(core, ("switch",)) and not nested_mask(core) and not case["zero_len"]:
         steps.append({"kind": "wrappers", "res": guarded(wrappers)})
-    if core[0] == "static":
-        for (a, sg, es) in core[1][:3]:
-            def do_sub(a=a):
-                st = tr0.get_subtrace(gfi.addr_name(a))
-                pre = [("s", x) for x in a]
+    # get_subtrace (C34): every address pattern of the program — first-level sites, nested sites reached through
+    # dimap / mask / switch wrappers, and sites under vmap / scan (the stacked subtrace, observed one element at a time)
+    pats = sub_patterns(core)
+    srng = random.Random(case["rngseed"] + 7)
+    if len(pats) > 6:
+        first = [q for q in pats if sum(1 for el in q if el[0] == "hop") == 1][:2]
+        rest = [q for q in pats if q not in first]
+        srng.shuffle(rest)
+        pats = first + rest[:4]
+    for pat in pats:
+        nvec = sum(1 for el in pat if el[0] == "vec")
+        insts = pattern_instances(pat, case["univ"]) if nvec else [[]]
+        for idx in insts:
+            def do_sub(pat=pat, idx=idx):
+                import jax.tree_util as jtu
+                st = tr0.get_subtrace(*[gfi.addr_name(el[1]) for el in pat if el[0] == "hop"])
+                if idx:
+                    st = jtu.tree_map(lambda v: v[tuple(idx)], st)
+                pre = pattern_prefix(pat, idx)
                 rel = [p[len(pre):] for p in case["univ"] if p[:len(pre)] == pre]
                 sub_chm = st.get_choices()
                 lk = []
@@ -642,7 +709,15 @@ def run_case(case):
                         raise AssertionError(f"lookup {q} -> {v}")
                     lk.append((q, v))
                 return (gfi.from_jax(st.get_score(), "S"), lk)
-            steps.append({"kind": "subtrace", "ti": 0, "addr": a, "res": guarded(do_sub)})
+            r = guarded(do_sub)
+            crossed, seen_vec = False, False
+            for el in pat:
+                seen_vec = seen_vec or el[0] == "vec"
+                crossed = crossed or (el[0] == "switch" and seen_vec)
+            if r[0] == "err" and crossed and r[2].startswith(("TypeError", "TracerIntegerConversionError", "IndexError")):
+                r = ("known", "switch-subtrace-batched-index", r[2])      # K66
+            steps.append({"kind": "subtrace", "ti": 0, "pattern": pat, "idx": idx, "addr": pattern_prefix(pat, idx), "res": r})
+    if core[0] == "static":
         # assess with one site's choices removed: MissingAddress exactly when a visited address has no value
         if not no_assess and len(core[1]) >= 1:
             a = core[1][rng.randrange(len(core[1]))][0]
@@ -880,7 +955,13 @@ def c_step(st, case, tmap, emap):
         def okf(o):
             look = clist([f"({c_path(p)}, {'None' if v is None else '(Some ' + cz(v) + ')'})" for (p, v) in o[1]])
             return f"({cz(o[0])}, {look})"
-        return f"StSub {tmap[st['ti']]}%nat {gfi.c_addr(st['addr'])} {c_want(r, okf)}"
+        hops, k = [], 0
+        for el in st["pattern"]:
+            if el[0] == "hop":
+                hops.append(f"HAddr {gfi.c_addr(el[1])}")
+            elif el[0] == "vec":
+                hops.append(f"HIdx {st['idx'][k]}%nat"); k += 1
+        return f"StSub {tmap[st['ti']]}%nat {clist(hops)} {c_want(r, okf)}"
     if k in ("assess_partial", "assess_full"):
         return (f"StAssess {c_entries(st['entries'])} {c_args(case)} "
                 f"{c_want(r, lambda o: '(' + cz(o[0]) + ', ' + c_val(o[1], case['rett']) + ')')}")
